@@ -282,7 +282,27 @@ fn one_case(seed: u64, i: u64, rep: &mut Report) {
             let h = refimpl::crypto::sha224_hex(format!("guess-{}-{}", i, k).as_bytes()).into_bytes();
             present(&mut cx, "trojan-unrelated-password", &h);
         }
-        // upper-case hex of the right hash is not the credential either? (hex decoding is case-insensitive: the same 28 bytes)
+        // digest fields that are not 56 hex digits at all: a decoder that skips, stops at or mis-reads what is no digit may
+        // end up comparing nothing (or less than 28 bytes) with the configured digest
+        for c in 0..=255u8 {
+            if c.is_ascii_hexdigit() {
+                continue;
+            }
+            present(&mut cx, "trojan-digest-field-of-one-repeated-non-hex-byte", &[c; 56]);
+        }
+        for filler in [b' ', b'\t', b'\r', b'\n', 0u8, b'g', b'G', b'+', b'-', b'x', 0x80, 0xff] {
+            // the first k digits of the RIGHT digest, the rest filler - and the other way round
+            for k in 0..=52usize {
+                let mut h = vec![filler; 56];
+                h[..k].copy_from_slice(&right[..k]);
+                present(&mut cx, "trojan-right-digest-prefix+non-hex-filler", &h);
+                let mut h = vec![filler; 56];
+                h[56 - k..].copy_from_slice(&right[56 - k..]);
+                present(&mut cx, "trojan-non-hex-filler+right-digest-suffix", &h);
+            }
+        }
+        // (a field that differs from the right digest in ONE character still shows knowledge of 55 of its 56 digits: Rust's
+        // from_str_radix reads "+f" as 0x0f, so such a field can be accepted without any credential being bypassed - not judged)
     }
     // (5) VMess: valid auth id (right user) but header sealed under another key
     if let Proto::Vmess(_) = cfg.proto {
